@@ -254,6 +254,10 @@ func (r *Report) Finish(verifDir string, tier string, seed int, wall float64, ex
 		"violations":  len(out.Violations),
 	}
 	evDir := filepath.Join(verifDir, "evidence")
+	if d := os.Getenv("VERIF_EVIDENCE_DIR"); d != "" {
+		// a run against another tree than /repo (a seeded change, a neutral refactoring): its evidence is kept apart
+		evDir = d
+	}
 	_ = os.MkdirAll(evDir, 0o755)
 	b, _ := json.MarshalIndent(ev, "", " ")
 	if err := os.WriteFile(filepath.Join(evDir, r.Property+".json"), b, 0o644); err != nil {
